@@ -30,7 +30,8 @@ Menu(n) ==
     S(-2, None, -2), S(n, None, 1), S(1, 1, 1), S(-2, None, 1), S(None, 0, -1) }
   \cup { I(i) : i \in {0, -1, n - 1, n} }
   \cup (IF n = 0 THEN {L(<<>>)} ELSE
-        { L(<<0>>), L(<<n - 1, 0>>), L(<<0, 0>>), L(<<-1, 0, n - 1>>), L(<<>>), L([j \in 1..n |-> j - 1]), L(<<n>>) })
+        { L(<<0>>), L(<<n - 1, 0>>), L(<<0, 0>>), L(<<-1, 0, n - 1>>), L(<<>>), L([j \in 1..n |-> j - 1]), L(<<n>>) }
+        \cup (IF n >= 3 THEN { L([j \in 1..n |-> IF j = 2 THEN 0 ELSE j - 1]) } ELSE {}))
   \cup { B([j \in 1..n |-> j % 2]), B([j \in 1..n |-> 0]), B([j \in 1..n |-> 1]) }
 
 NArr(cs) == Cardinality({p \in DOMAIN cs : cs[p].k \in {"l", "b"}})
@@ -64,7 +65,25 @@ BlocksCases ==
   UNION { UNION { [fam: {"blocks"}, shape: {sh}, chunks: {ch}, comps: { x \in PerAxisB(ch) : NArr(x) <= 1 }]
                   : ch \in NDChunkings(sh) } : sh \in Shapes }
 
+\* vindex with a single integer on some axes (broadcast against the point lists)
+PtsOrInt(n) == { L(v) : v \in PtsMenu(n) } \cup (IF n = 0 THEN {} ELSE { I(0), I(-1), I(n - 1) })
+RECURSIVE PerAxisPI(_)
+PerAxisPI(shape) == IF shape = <<>> THEN {<<>>}
+                    ELSE { <<c>> \o r : c \in PtsOrInt(Head(shape)), r \in PerAxisPI(Tail(shape)) }
+VindexIntCases ==
+  UNION { [fam: {"vindexc"}, shape: {sh}, chunks: NDChunkings(sh),
+           comps: { x \in PerAxisPI(sh) : (\E a \in DOMAIN x : x[a].k = "l") /\ (\E a \in DOMAIN x : x[a].k = "i") }]
+          : sh \in Shapes }
+
+\* full-shape boolean masks; the mask has its own chunking when it is a dask array
+Masks(n) == { [j \in 1..n |-> IF j \in MS THEN 1 ELSE 0] : MS \in SUBSET (1..n) }
+MaskCases ==
+  UNION { [fam: {"mask"}, shape: {sh}, chunks: NDChunkings(sh), mchunks: NDChunkings(sh), mask: Masks(Size(sh))]
+          : sh \in Shapes }
+
 Cases == CASE Fam = "slice1d" -> Slice1dCases
+           [] Fam = "vindexc" -> VindexIntCases
+           [] Fam = "mask"    -> MaskCases
            [] Fam = "nd"      -> NdCases
            [] Fam = "vindex"  -> VindexCases
            [] Fam = "blocks"  -> BlocksCases
@@ -73,6 +92,8 @@ Expected(c) == CASE c.fam = "slice1d" -> Result(c.shape, <<S(c.a, c.b, c.st)>>)
                  [] c.fam = "nd"      -> Result(c.shape, c.comps)
                  [] c.fam = "vindex"  -> VIndex(c.shape, c.pts)
                  [] c.fam = "blocks"  -> BlocksResult(c.shape, c.chunks, c.comps)
+                 [] c.fam = "vindexc" -> VIndexC(c.shape, c.comps)
+                 [] c.fam = "mask"    -> MaskResult(c.shape, c.mask)
 
 VARIABLE exp
 Init == /\ case \in Cases
